@@ -14,6 +14,7 @@ import (
 	"go/constant"
 	"go/token"
 	"go/types"
+	"strings"
 
 	"golang.org/x/tools/go/ssa"
 )
@@ -368,6 +369,57 @@ func (fd *folder) fold(f *ssa.Function, args []cval) foldResult {
 						env[x] = cval{kind: "str", s: asciiUpper(c.s)}
 					}
 					break
+				}
+				// pure searches of the standard library on constant strings / byte slices
+				if sc.Pkg != nil && (sc.Pkg.Pkg.Path() == "strings" || sc.Pkg.Pkg.Path() == "bytes") {
+					var cs []cval
+					okArgs := true
+					for _, a := range x.Call.Args {
+						c, why := get(a)
+						if why != "" {
+							okArgs = false
+							break
+						}
+						cs = append(cs, c)
+					}
+					isStr := func(c cval) bool { return c.kind == "str" || c.kind == "bytes" }
+					if okArgs && len(cs) == 2 && isStr(cs[0]) {
+						done := true
+						switch {
+						case (sc.Name() == "IndexByte" || sc.Name() == "LastIndexByte") && cs[1].kind == "int":
+							b := byte(cs[1].i)
+							if sc.Name() == "IndexByte" {
+								env[x] = cval{kind: "int", i: int64(strings.IndexByte(cs[0].s, b))}
+							} else {
+								env[x] = cval{kind: "int", i: int64(strings.LastIndexByte(cs[0].s, b))}
+							}
+						case isStr(cs[1]) && sc.Name() == "Index":
+							env[x] = cval{kind: "int", i: int64(strings.Index(cs[0].s, cs[1].s))}
+						case isStr(cs[1]) && sc.Name() == "LastIndex":
+							env[x] = cval{kind: "int", i: int64(strings.LastIndex(cs[0].s, cs[1].s))}
+						case isStr(cs[1]) && sc.Name() == "Contains":
+							env[x] = cval{kind: "bool", b: strings.Contains(cs[0].s, cs[1].s)}
+						case isStr(cs[1]) && sc.Name() == "HasPrefix":
+							env[x] = cval{kind: "bool", b: strings.HasPrefix(cs[0].s, cs[1].s)}
+						case isStr(cs[1]) && sc.Name() == "HasSuffix":
+							env[x] = cval{kind: "bool", b: strings.HasSuffix(cs[0].s, cs[1].s)}
+						case isStr(cs[1]) && sc.Name() == "TrimPrefix" && cs[0].kind == "str":
+							env[x] = cval{kind: "str", s: strings.TrimPrefix(cs[0].s, cs[1].s)}
+						case isStr(cs[1]) && sc.Name() == "TrimSuffix" && cs[0].kind == "str":
+							env[x] = cval{kind: "str", s: strings.TrimSuffix(cs[0].s, cs[1].s)}
+						case isStr(cs[1]) && (sc.Name() == "EqualFold" || sc.Name() == "Equal"):
+							if sc.Name() == "Equal" {
+								env[x] = cval{kind: "bool", b: cs[0].s == cs[1].s}
+							} else {
+								env[x] = cval{kind: "bool", b: asciiLower(cs[0].s) == asciiLower(cs[1].s)}
+							}
+						default:
+							done = false
+						}
+						if done {
+							break
+						}
+					}
 				}
 				if sc.String() == "fmt.Sprintf" && len(x.Call.Args) == 2 {
 					// Sprintf(format) without operands returns the format when it holds no verb
